@@ -116,7 +116,11 @@ func Send(e *Event, r events.DataEventReceiver) {
 	case Padding:
 		r.OnPadding()
 	case Comment:
-		r.OnComment(e.B, cp(e.Bs))
+		{
+			b := cp(e.Bs)
+			r.OnComment(e.B, b)
+			poison(b)
+		}
 	case Null:
 		r.OnNull()
 	case Boolean:
@@ -142,7 +146,11 @@ func Send(e *Event, r events.DataEventReceiver) {
 	case BigDFloat:
 		r.OnBigDecimalFloat(CopyAPD(e.BDF))
 	case UID:
-		r.OnUID(cp(e.Bs))
+		{
+			b := cp(e.Bs)
+			r.OnUID(b)
+			poison(b)
+		}
 	case Nan:
 		r.OnNan(e.B)
 	case Time:
@@ -152,9 +160,17 @@ func Send(e *Event, r events.DataEventReceiver) {
 	case Map:
 		r.OnMap()
 	case RecordType:
-		r.OnRecordType(cp(e.Bs))
+		{
+			b := cp(e.Bs)
+			r.OnRecordType(b)
+			poison(b)
+		}
 	case Record:
-		r.OnRecord(cp(e.Bs))
+		{
+			b := cp(e.Bs)
+			r.OnRecord(b)
+			poison(b)
+		}
 	case Edge:
 		r.OnEdge()
 	case Node:
@@ -162,17 +178,37 @@ func Send(e *Event, r events.DataEventReceiver) {
 	case End:
 		r.OnEndContainer()
 	case Marker:
-		r.OnMarker(cp(e.Bs))
+		{
+			b := cp(e.Bs)
+			r.OnMarker(b)
+			poison(b)
+		}
 	case RefLocal:
-		r.OnReferenceLocal(cp(e.Bs))
+		{
+			b := cp(e.Bs)
+			r.OnReferenceLocal(b)
+			poison(b)
+		}
 	case Array:
-		r.OnArray(e.AT, e.U, cp(e.Bs))
+		{
+			b := cp(e.Bs)
+			r.OnArray(e.AT, e.U, b)
+			poison(b)
+		}
 	case StringArray:
 		r.OnStringlikeArray(e.AT, e.S)
 	case Media:
-		r.OnMedia(e.S, cp(e.Bs))
+		{
+			b := cp(e.Bs)
+			r.OnMedia(e.S, b)
+			poison(b)
+		}
 	case CustomBinary:
-		r.OnCustomBinary(e.U, cp(e.Bs))
+		{
+			b := cp(e.Bs)
+			r.OnCustomBinary(e.U, b)
+			poison(b)
+		}
 	case CustomText:
 		r.OnCustomText(e.U, e.S)
 	case ArrayBegin:
@@ -184,11 +220,24 @@ func Send(e *Event, r events.DataEventReceiver) {
 	case ArrayChunk:
 		r.OnArrayChunk(e.U, e.B)
 	case ArrayData:
-		r.OnArrayData(cp(e.Bs))
+		{
+			b := cp(e.Bs)
+			r.OnArrayData(b)
+			poison(b)
+		}
 	case Error:
 		r.OnError()
 	default:
 		panic(fmt.Errorf("ev.Send: unknown kind %d", e.K))
+	}
+}
+
+// poison overwrites a buffer that was lent to a receiver for the duration of one call: the event interface
+// says that byte data must be copied if it is to be stored, and the library's own decoders do reuse their
+// buffers, so a receiver that keeps the slice must show.
+func poison(b []byte) {
+	for i := range b {
+		b[i] = 0xa5
 	}
 }
 
